@@ -7,7 +7,7 @@ import "strings"
 func registerProps() {
 	propTable["C01"] = PropDef{
 		Title:       "Key-value read-after-write: every read returns the last successful write",
-		Rules:       []string{"R-TXN", "R-COMMIT", "R-ROWCOMPLETE", "R-READ-NULL", "R-READ-ONCE", "R-LIVE", "R-COLL", "R-ERRPROP", "R-EVT-ROW", "R-RMW", "R-ERR-OVERWRITE", "R-EXP"},
+		Rules:       []string{"R-TXN", "R-COMMIT", "R-ROWCOMPLETE", "R-READ-NULL", "R-READ-ONCE", "R-LIVE", "R-COLL", "R-ERRPROP", "R-EVT-ROW", "R-RMW", "R-ERR-OVERWRITE", "R-EXP", "R-FRESH-DECODE"},
 		Scope:       map[string][]string{"R-RMW": {"WriteSubDoc", "SubdocInsert"}},
 		Explanation: "Decides necessary structural clauses, not the behaviour: (a) an operation that fails leaves the document as it was <= every row write runs on the handle of the one transaction (R-TXN) that the runner rolls back on every failing path and whose commit error is reported (R-COMMIT), and no statement error inside a transaction closure is dropped (R-ERRPROP) nor is a stored error replaced by a later step's before it was examined (R-ERR-OVERWRITE); (b) the last successful write is what is stored <= every body/tombstone/xattr statement assigns the complete row (R-ROWCOMPLETE) and the values bound into it are the operation's own (R-EVT-ROW); a read-modify-write of a body starts every attempt from a fresh read, so that what it stores is the document it last read plus its own change (R-RMW, sub-document writers); (c) missing if deleted <= the read helper maps a NULL body to the missing error (R-READ-NULL), read-side liveness tests use the body column (R-LIVE), reads are scoped to the receiver's collection (R-COLL).",
 		NotDecided:  "equality of returned bytes/CAS/expiry with a model over arbitrary histories; JSON encode/decode; nil bodies passed to Set/Add; purge visibility; value-level control flow inside Update's callback handling.",
@@ -74,7 +74,7 @@ func registerProps() {
 	}
 	propTable["C12"] = PropDef{
 		Title:       "A non-stale view query equals the map function applied to the current documents",
-		Rules:       []string{"R-VIEW", "R-VIEW-MARK", "R-COLL", "R-DROP", "R-ONE-TXN", "R-TXN", "R-VIEW-PARAMS", "R-HLC"},
+		Rules:       []string{"R-VIEW", "R-VIEW-MARK", "R-COLL", "R-DROP", "R-ONE-TXN", "R-TXN", "R-VIEW-PARAMS", "R-HLC", "R-FRESH-DECODE"},
 		Explanation: "The incremental index update selects documents above the last indexed CAS, which is complete only if CAS order is commit order: the CAS is drawn inside the transaction closure under the bucket mutex (R-HLC/CALL). Every honoured query option is still read (R-VIEW-PARAMS). In the index-update closure the obsolete-row delete and the re-map select use the same comparator on documents.cas and the same bound mark, and the view's mark is set to the collection mark read through the same transaction (R-VIEW, R-TXN); every transaction that changes a document advances the collection mark (R-VIEW-MARK); the row query orders by (mapped.key, documents.key) in one direction with the range operators paired to min/max (R-VIEW); the compiled map function is reused from the cache only when its source is unchanged (R-VIEW); replacing a design document is one transaction whose delete precedes the inserts (R-VIEW, R-ONE-TXN); index rows are scoped and cascade (R-COLL, R-DROP).",
 		NotDecided:  "JavaScript map/reduce evaluation, the collation function, parameter post-processing in sg-bucket.",
 	}
@@ -92,25 +92,25 @@ func registerProps() {
 	}
 	propTable["C15"] = PropDef{
 		Title:       "Checkpointed feeds resume without skipping a mutation",
-		Rules:       []string{"R-CHECKPOINT", "R-ATOMIC-ENQ", "R-BACKFILL", "R-BACKFILL-GAP", "R-QUEUE", "R-BACKFILL-COND", "R-FEEDMAP-WRITERS", "R-EVT-FEEDEVENT"},
+		Rules:       []string{"R-CHECKPOINT", "R-ATOMIC-ENQ", "R-BACKFILL", "R-BACKFILL-GAP", "R-QUEUE", "R-BACKFILL-COND", "R-FEEDMAP-WRITERS", "R-EVT-FEEDEVENT", "R-HLC"},
 		Explanation: "Resume starts at checkpoint+1 with an inclusive lower bound (R-CHECKPOINT, R-BACKFILL); the feed loop advances its delivered-CAS only from the event just passed to the callback and only upwards, and persists exactly that field (R-CHECKPOINT); its premise, CAS-ordered delivery, needs FIFO queues, enqueue inside the commit's critical section and a backfill that is not interleaved with live events (R-QUEUE, R-ATOMIC-ENQ, R-BACKFILL-GAP).",
 		NotDecided:  "the union-of-runs behaviour itself.",
 	}
 	propTable["C16"] = PropDef{
 		Title:       "Feeds terminate cleanly and independently",
-		Rules:       []string{"R-DONE", "R-FEED-START", "R-LOOPVAR", "R-QUEUE", "R-SHUTDOWN", "R-FEEDMAP", "R-FEEDMAP-WRITERS", "R-GUARDED"},
+		Rules:       []string{"R-DONE", "R-FEED-START", "R-LOOPVAR", "R-QUEUE", "R-SHUTDOWN", "R-FEEDMAP", "R-FEEDMAP-WRITERS", "R-GUARDED", "R-WAIT-LOCK"},
 		Explanation: "The feed loop closes its done channel by a deferred close guarded only by 'channel is non-nil', starts its terminator goroutine whenever a terminator is given, and calls the callback only for non-nil events; per-collection done channels are fresh, passed to their feed, and coalesced by one goroutine that does not capture a loop variable (R-DONE, R-LOOPVAR); every started feed is registered or has its end marker (R-FEED-START); close wakes the puller (R-QUEUE); shutdown walks the shared registry before closing the database (R-SHUTDOWN); stopping a collection's feeds touches only its own registry entry (R-FEEDMAP); the registry is accessed under the bucket mutex (R-GUARDED).",
 		NotDecided:  "actual goroutine exit, starvation under load.",
 	}
 	propTable["C17"] = PropDef{
 		Title:       "Revision sequence number counts the mutations of a key",
-		Rules:       []string{"R-REV", "R-ROWCOMPLETE", "R-EVT-ROW", "R-BACKFILL", "R-EVT-CONV", "R-COLL"},
+		Rules:       []string{"R-REV", "R-ROWCOMPLETE", "R-EVT-ROW", "R-BACKFILL", "R-EVT-CONV", "R-COLL", "R-EVT-FEEDEVENT"},
 		Explanation: "In every write unit the value bound to revSeqNo is (the row's revSeqNo read through the same transaction, or 0 when there is no row) + 1, on every path (R-REV); every kind of write unit assigns the column (R-ROWCOMPLETE); the event carries the same term (R-EVT-ROW/revSeqNo) and the converter and backfill map it to RevNo (R-EVT-CONV, R-BACKFILL); the virtual xattrs format the revSeqNo of their own SELECT (R-REV).",
 		NotDecided:  "numbering across purge/re-create histories beyond 'absent row counts from 0'.",
 	}
 	propTable["C18"] = PropDef{
 		Title:       "Sub-document writes change only the addressed property, CAS-safely",
-		Rules:       []string{"R-RMW", "R-CAS"},
+		Rules:       []string{"R-RMW", "R-CAS", "R-FRESH-DECODE"},
 		Scope:       map[string][]string{"R-RMW": {"WriteSubDoc", "SubdocInsert"}, "R-CAS": {"WriteCas"}},
 		Explanation: "The sub-document writer reads into a variable that is fresh in every iteration, compares a caller-supplied CAS with the CAS it read before writing, writes back through the CAS-conditional entry point with the read CAS, and retries only on a CAS mismatch (R-RMW); that entry point's own guard is R-CAS.",
 		NotDecided:  "JSON path semantics (including null parents), preservation of the other properties (value level), GetSubDocRaw's result.",
@@ -123,7 +123,7 @@ func registerProps() {
 	}
 	propTable["C20"] = PropDef{
 		Title:       "Shutdown is safe: no panic, deadlock or leaked goroutine at any timing",
-		Rules:       []string{"R-LOCK-PAIR", "R-LOCK-ORDER", "R-GUARDED", "R-TXN-READS", "R-SHUTDOWN", "R-CLOSED", "R-FEEDMAP", "R-BG-PANIC", "R-TIMER", "R-DONE", "R-LOOPVAR"},
+		Rules:       []string{"R-LOCK-PAIR", "R-LOCK-ORDER", "R-GUARDED", "R-TXN-READS", "R-SHUTDOWN", "R-CLOSED", "R-FEEDMAP", "R-BG-PANIC", "R-TIMER", "R-DONE", "R-LOOPVAR", "R-WAIT-LOCK"},
 		Explanation: "No lock is left held on any path (R-LOCK-PAIR); the lock-order graph computed from must-hold locksets and transitive may-acquire summaries is acyclic (R-LOCK-ORDER) and nothing inside a transaction re-enters the bucket mutex (R-TXN-READS); maps and the closed flag are accessed under their mutex (R-GUARDED: a concurrent map access is a fatal error); shutdown order (R-SHUTDOWN); the DB handle is never reset and is used only behind the closed test (R-CLOSED); the feed registry is never replaced (R-FEEDMAP); no explicit panic is reachable from a goroutine root or timer callback except the converter's assertions (R-BG-PANIC); the done channel of a feed is closed once (R-DONE, R-LOOPVAR: a second close panics in a library goroutine); only one expiry timer is ever pending, so stop() cancels it (R-TIMER).",
 		NotDecided:  "absence of goroutine leaks and of run-time panics in general (nil dereferences, index errors); timing.",
 	}
